@@ -25,7 +25,7 @@ RULE = (
 )
 BOUNDS = {
     "quick": "10 fixtures (HQ lossy/lossless, LD, fragments, asymmetric, slice_size_scaler 2, transform parameters changing between pictures); per picture/fragment unit 8 seeded single symbolic bytes (transform parameters, slice qindex/length fields, payload) and one seeded 2-byte window on 3 fixtures",
-    "thorough": "10 fixtures; every single byte and every third 2-byte window of each picture/fragment unit, 3-byte windows every 7 bytes",
+    "thorough": "13 fixtures; every single byte of each picture/fragment unit, 2 seeded 2-byte windows per unit on 7 fixtures",
 }
 OUTSIDE = "more than 3 symbolic payload bytes per exploration (entropy-coded data forks per exp-Golomb bit); rejected streams"
 ASSUMPTIONS = ["picture_decode is wrapped in-process to capture decoder state (property's hook_needed)", "resource bounds as in C02/C06"]
@@ -37,6 +37,7 @@ IFCONV = ["write_bit"]
 
 FIX_Q = ["hq_min", "hq_lossless", "ld_min", "hq_frag", "ld_frag", "hq_asym", "hq_tiny_lossless", "hq_scaler2", "hq_asym_then_sym", "hq_params_change"]
 PAIR_FIXTURES = ["hq_min", "ld_min", "hq_tiny_lossless"]
+PAIR_FIXTURES_T = ["hq_min", "ld_min", "hq_tiny_lossless", "hq_frag", "ld_frag", "hq_lossless", "hq_asym"]
 FIX_T = FIX_Q + ["hq_fields", "hq_420", "hq_tiny"]
 
 
@@ -61,14 +62,11 @@ def tasks(tier, seed):
                 lastpic = [k for k, u in enumerate(meta["units"]) if u[1] in (0xE8, 0xC8, 0xEC, 0xCC)][-1]
                 pairs = sorted(rnd.sample(pairs, 1)) if (i == lastpic and name in PAIR_FIXTURES) else []
             else:
-                pairs = pairs[::3]
+                pairs = sorted(rnd.sample(pairs, min(2, len(pairs)))) if name in PAIR_FIXTURES_T else []
             for s in singles:
                 out.append({"id": "%s/u%d@%d/1" % (name, i, s - off), "harness": "both", "args": (name, [(s, 1)])})
             for s in pairs:
                 out.append({"id": "%s/u%d@%d/2" % (name, i, s - off), "harness": "both", "args": (name, [(s, 2)])})
-            if tier != "quick":
-                for s in range(body + 8, end - 2, 7):
-                    out.append({"id": "%s/u%d@%d/3" % (name, i, s - off), "harness": "both", "args": (name, [(s, 3)])})
     return out
 
 
